@@ -32,6 +32,7 @@ class Cfg:
     avoid_order_loss: bool = True  # steer away from binary ops / materialize on an un-sliced sort (SQL)
     pred_depth: int = 2
     p_plit: int = 10  # percentage of atomic predicates that are TRUE / FALSE literals
+    p_restricted: int = 0  # percentage of calculation / sort expressions using an engine-restricted function
     p_wrap: int = 10  # percentage of predicates combined with a constant-foldable operand (OR[p, FALSE], AND[TRUE, p], ...)
     expr_depth: int = 2
     prelude: float = 0.0  # probability of starting from a drawn SELECT state (subset of sort/proj/dedup/slice)
@@ -125,13 +126,17 @@ def st_leaf(draw, cfg, universe, index, earlier=()):
 
 
 @st.composite
-def st_sort_terms(draw, cols, total_bias=True, max_terms=3, depth=1):
+def st_sort_terms(draw, cols, total_bias=True, max_terms=3, depth=1, restricted=0):
     cols = sorted_tags(cols)
     if total_bias and draw(st.booleans()):
         perm = draw(st.permutations(cols))
         return tuple((("ref", t), draw(st.booleans())) for t in perm)
     return tuple(
-        draw(st.lists(st.tuples(st_expr(cols, depth, need_ref=True), st.booleans()), min_size=1, max_size=max_terms))
+        draw(
+            st.lists(
+                st.tuples(st_expr(cols, depth, need_ref=True, restricted=restricted), st.booleans()), min_size=1, max_size=max_terms
+            )
+        )
     )
 
 
@@ -199,7 +204,7 @@ def st_unary_node(draw, src, cols, universe, kinds, cfg, counter=None, hidden=()
     if k == "calc":
         hid = [t for t in hidden if t in free]
         tag = draw(st.sampled_from(hid)) if hid and draw(st.booleans()) else draw(st.sampled_from(free))
-        return ("calc", src, tag, draw(st_expr(cols, cfg.expr_depth, need_ref=True)))
+        return ("calc", src, tag, draw(st_expr(cols, cfg.expr_depth, need_ref=True, restricted=cfg.p_restricted)))
     if k == "proj":
         order = draw(st.permutations(sorted_tags(cols))) if cols else []
         keep = draw(st.integers(0, len(order)))
@@ -211,7 +216,7 @@ def st_unary_node(draw, src, cols, universe, kinds, cfg, counter=None, hidden=()
     if k == "dedup":
         return ("dedup", src)
     if k == "sort":
-        return ("sort", src, draw(st_sort_terms(cols)))
+        return ("sort", src, draw(st_sort_terms(cols, restricted=cfg.p_restricted)))
     if k == "slice":
         s, e = draw(st_slice())
         return ("slice", src, s, e)
